@@ -21,7 +21,8 @@ RULE = (
     "permutation sub-grid). Oracle: refine => no box point with Gamma & R & not S; relax => no box point with "
     "Gamma & S & not R and vars(R) disjoint from elim; any exception other than ValueError is a violation. "
     "quick = complete core (Gamma <= 1 term), the complete kayk family (two eliminated variables coupled by two context rows "
-    "with coefficients in {-2,-1,1,2}) and the permutation family + one complete 1/%d slice (VERIF_SEED mod %d) of the thorough space; "
+    "with coefficients in {-2,-1,1,2}), kayk3 (three eliminated variables, three rows with diagonal 1 or 2 and 0/1 off-diagonal loads), frac "
+    "(coefficients +-0.5 and +-1, pivots below 1) and the permutation family + one complete 1/%d slice (VERIF_SEED mod %d) of the thorough space; "
     "thorough = whole space. Non-trivial = the returned statistics attribute a tactic > 0 to some term "
     "(a term was actually transformed); distinctness by construction of the duplicate-free enumeration."
     % (NSLICES, NSLICES)
@@ -46,6 +47,20 @@ def _families(tier):
     k_s = [[{n: v for n, v in t[0].items() if v}, t[1]] for t in k_s]
     k_g = [t for t in grids.terms(["y", "z"], [-2, -1, 1, 2], [0])]
     yield ("kayk", [[t] for t in k_s], list(grids.lists_upto(k_g, 2, minlen=2)), [["y", "z"]])
+    # three eliminated variables in one term, three context rows with diagonal 1 or 2 and off-diagonal loads 0/1
+    k3_s = [[{"x": cx, "y": a, "z": b, "w": c}, 5] for cx in (0, 1) for (a, b, c) in ((1, 1, 1), (2, 3, 2), (1, 2, 1))]
+    k3_s = [[{n: v for n, v in t[0].items() if v}, t[1]] for t in k3_s]
+    k3_g = []
+    for dg in (1, 2):
+        for off in itertools.product((0, 1), repeat=6):
+            rows = [{"y": dg, "z": off[0], "w": off[1]}, {"y": off[2], "z": dg, "w": off[3]}, {"y": off[4], "z": off[5], "w": dg}]
+            k3_g.append([[{n: v for n, v in r.items() if v}, 1] for r in rows])
+    yield ("kayk3", [[t] for t in k3_s], k3_g, [["y", "z", "w"]])
+    # non-integer coefficients (pivots of magnitude below 1)
+    f_s = [[{"x": cx, "y": a, "z": b}, 1] for cx in (0, 1) for a in (0.5, 1, 2) for b in (0.5, 1, 2)]
+    f_s = [[{n: v for n, v in t[0].items() if v}, t[1]] for t in f_s]
+    f_g = [t for t in grids.terms(["y", "z"], [-1, -0.5, 0.5, 1], [1])]
+    yield ("frac", [[t] for t in f_s], list(grids.lists_upto(f_g, 2, minlen=2)), [["y", "z"]])
     yield ("core", [[t] for t in s_terms], list(grids.lists_upto(g_terms, 1)), [["y"], ["y", "z"]])
     yield ("g2", [[t] for t in s_terms], list(grids.lists_upto(g_terms, 2, minlen=2)), [["y"], ["y", "z"]])
     # other constants, other eliminated sets
@@ -78,7 +93,7 @@ def cases(tier, seed):
     sl = seed % NSLICES
     k = 0
     for c in _cases_all():
-        if tier == "thorough" or c["fam"] in ("core", "perm", "kayk"):
+        if tier == "thorough" or c["fam"] in ("core", "perm", "kayk", "kayk3", "frac"):
             yield c
         else:
             k += 1
